@@ -4,6 +4,7 @@
 (* and the recorded result must be one of the acceptable results.  The file named by env TRACE holds one *)
 (* JSON object per line:                                                                                 *)
 (*   {"op":"expand", "reset":bool, "env":[[name,value],...], "prog":[name,version], "input":[..], "isnull":bool,          *)
+(*    "dirs":[{"path":[..],"isdir":bool,"ents":[{"name":[..],"kind":".."},..]},..],                      *)
 (*    "got":[..], "store":[[k,v],..]}                                                                    *)
 (* or {"op":"register", "reset":bool, "name":[..], "kind":0..2, "ret":n}  (n-th application built-in registered)   *)
 (* reset = the recording process started from an empty store.  One JSON verdict line is printed per      *)
@@ -16,6 +17,11 @@ Tr == ndJsonDeserialize(IOEnv.TRACE)
 EnvTrace(e, nm) == LET ev == Tr[e].env
                        hit == {i \in 1 .. Len(ev) : ev[i][1] = nm}
                    IN IF hit = {} THEN <<>> ELSE ev[CHOOSE i \in hit : TRUE][2]
+\* the directory fixtures the recording side built for this event: [path, isdir, ents]; any other path is unknown (X)
+DirTrace(e, path) == LET ds == Tr[e].dirs
+                         hit == {i \in 1 .. Len(ds) : ds[i].path = path}
+                     IN IF hit = {} THEN [known |-> FALSE, isdir |-> FALSE, ents |-> <<>>]
+                        ELSE LET d == ds[CHOOSE i \in hit : TRUE] IN [known |-> TRUE, isdir |-> d.isdir, ents |-> d.ents]
 StartsNone(st, rg) == {}
 RegNone == <<>>
 AppNameTr(e) == Tr[e].prog[1]         \* program name / version in force when the event was recorded
